@@ -16,8 +16,8 @@ from pathlib import Path
 
 VERIF = Path(__file__).resolve().parent.parent
 LEAN = VERIF / "lean"
-EVIDENCE = VERIF / "evidence"
-REPLAYS = VERIF / "replays"
+EVIDENCE = Path(os.environ.get("VERIF_EVIDENCE_DIR", VERIF / "evidence"))  # redirected only by tools/confirm_seed.sh (trial runs against a scratch worktree)
+REPLAYS = Path(os.environ.get("VERIF_REPLAYS_DIR", VERIF / "replays"))
 CORPUS = VERIF / "corpus"
 REPO = Path(os.environ.get("PYREFACT_REPO", "/repo"))
 KNOWN = VERIF / "KNOWN_FINDINGS.txt"
@@ -166,7 +166,9 @@ class Driver:
             return []
         data = "".join(json.dumps(r, ensure_ascii=True) + "\n" for r in requests)
         p = subprocess.run([str(self.exe)], input=data, capture_output=True, text=True, timeout=timeout)
-        lines = p.stdout.splitlines()
+        lines = p.stdout.split("\n")  # not splitlines(): the driver writes U+2028 / NEL inside strings unescaped
+        if lines and lines[-1] == "":
+            lines.pop()
         if len(lines) != len(requests):
             raise RuntimeError(
                 f"driver answered {len(lines)} lines for {len(requests)} requests; rc={p.returncode} stderr={p.stderr[-2000:]}"
